@@ -193,11 +193,21 @@ def DB.handOut (db : DB) (r : Raw) : DB :=
   if r.follows then { db with raw := { r with working := db.committed, follows := false } }
   else { db with raw := r }
 
+/-- a record is created (`_ConnectionRecord.__init__` connects) and then checked out:
+    `get_connection` runs its age test on the brand-new connection as well — one more clock
+    reading when pool_recycle is configured (and with pool_recycle = 0 the connection is
+    closed and opened once more) -/
+def DB.freshRaw (db : DB) : DB :=
+  let db := db.newRaw
+  let (db', st) := db.staleCheck db.raw
+  if st then db'.newRaw else db'
+
 /-- `Pool.connect()` when the creator works -/
 def DB.checkout (db : DB) : DB :=
   match db.checkoutPre with
   | (db, some r, _) => db.handOut r
-  | (db, none, _) => db.newRaw
+  | (db, none, true) => db.newRaw
+  | (db, none, false) => db.freshRaw
 
 /-- `Pool.connect()` with a possibly failing creator (`_ConnectionRecord.__connect` reads the
     clock, then calls the creator): on failure an existing record goes back to the pool empty
